@@ -1,1 +1,12 @@
 import SwcVerif.Props.C01
+#print axioms C01.writer_consts_pinned
+#print axioms C01.digits_parse
+#print axioms C01.fmt4_parse
+#print axioms C01.row_roundtrip
+#print axioms C01.comment_roundtrip
+#print axioms C01.comment_text_same
+#print axioms C01.header_dropped
+#print axioms C01.written_lines_are_lines
+#print axioms C01.table_roundtrip
+#print axioms C01.comments_roundtrip
+#print axioms C01.reset_restores
